@@ -4,6 +4,7 @@ from __future__ import annotations
 import collections
 
 import common as C
+import re_probes as RP
 import engine_common as E
 import engine_extract
 import replay_common as R
@@ -185,6 +186,7 @@ def run(ctx, model=True):
     res = E.run_property(ctx, "C09", oracle, gen=gen, quick=160, thorough=4000, model=model)
     for k, v in STATS.items():
         res.count(k, v)
+    RP.add_to(res, ["stale-deferred-pause"])
     res.rule += " | C09: checkpoints at varying spacing (some plans almost without), deferred pause requested at EVERY arrival index (sweeps) or by a pause(defer=True) message, mixed with immediate pauses / suspensions / aborts; judged = the request met a checkpoint (paused there, nothing executed in between, resume replays nothing) or met none (flag stays set, call not interrupted)"
     return res
 
@@ -194,4 +196,7 @@ def run_impl_only(ctx):
 
 
 def replay(ctx, data):
+    r = RP.replay(data)
+    if r is not None:
+        return r
     return E.replay_property(ctx, data, oracle)
